@@ -189,6 +189,53 @@ Theorem C05_try_catches_only_throw : forall n st cur b x h st1 r,
 Proof. exact try_catches_only_throw. Qed.
 Print Assumptions C05_try_catches_only_throw.
 
+(* try with a selective catch pattern (literal, `_: type`, `a, b`): non-throws pass untouched *)
+Theorem C05_tryp_catches_only_throw : forall n st cur b p h st1 r,
+  eval n st cur b = (st1, r) -> (forall v, r <> Sig (SThrow v)) ->
+  eval (S n) st cur (ETryP b p h) = (st1, r).
+Proof. exact tryp_catches_only_throw. Qed.
+Print Assumptions C05_tryp_catches_only_throw.
+
+(* if the pattern refuses the thrown value, the result is the throw of the SAME value, with the
+   store and the output exactly as the body left them: the handler did nothing, and an outer
+   catch receives the original value *)
+Theorem C05_catch_mismatch_rethrows_original : forall n st cur b p h st1 v,
+  eval n st cur b = (st1, Sig (SThrow v)) -> match_cpat p v = TThrow ->
+  eval (S n) st cur (ETryP b p h) = (st1, Sig (SThrow v)).
+Proof. exact catch_mismatch_rethrows_original. Qed.
+Print Assumptions C05_catch_mismatch_rethrows_original.
+
+Theorem C05_catch_match_runs_handler : forall n st cur b p h st1 v bs,
+  eval n st cur b = (st1, Sig (SThrow v)) -> match_cpat p v = TOk bs ->
+  eval (S n) st cur (ETryP b p h) =
+  bindR (declare_all (fst (push_frame st1 cur)) (List.length (frames st1)) bs)
+        (fun st3 _ => eval n st3 (List.length (frames st1)) h).
+Proof. exact catch_match_runs_handler. Qed.
+Print Assumptions C05_catch_match_runs_handler.
+
+(* which values each kind of pattern refuses / accepts *)
+Theorem C05_cpat_refusal : forall v,
+  (forall x, match_cpat (CName x) v = TOk [(x, v)]) /\
+  (forall z, v <> VInt z -> match_cpat (CInt z) v = TThrow) /\
+  (forall z, match_cpat (CInt z) (VInt z) = TOk []) /\
+  (forall s, v <> VStr s -> v <> VErr -> match_cpat (CStr s) v = TThrow) /\
+  ((forall z, v <> VInt z) -> match_cpat (CWild (Some TInt)) v = TThrow) /\
+  ((forall l, v <> VList l) -> match_cpat (CWild (Some TList)) v = TThrow) /\
+  ((forall s, v <> VStr s) -> v <> VErr -> match_cpat (CWild (Some TStr)) v = TThrow) /\
+  (forall xs l, v = VList l -> List.length l <> List.length xs -> match_cpat (CList xs) v = TThrow) /\
+  (forall xs l, v = VList l -> List.length l = List.length xs -> nodupb xs = true ->
+     match_cpat (CList xs) v = TOk (combine xs l)).
+Proof. exact cpat_refusal. Qed.
+Print Assumptions C05_cpat_refusal.
+
+(* names bound by the pattern and by the handler are dropped afterwards *)
+Theorem C05_catch_pattern_scope : forall n st cur b p h st1 v st' r,
+  eval n st cur b = (st1, Sig (SThrow v)) ->
+  eval (S n) st cur (ETryP b p h) = (st', r) ->
+  preserves_all st1 st'.
+Proof. exact catchp_scope. Qed.
+Print Assumptions C05_catch_pattern_scope.
+
 (* and / or / coalesce: when the left operand decides, store and output are those after the
    left operand: the right operand is not evaluated; otherwise the result is the right operand's *)
 Theorem C05_short_circuit : forall n st cur a b st1 v,
@@ -280,3 +327,11 @@ Proof.
   assert (H : snd (run 30 C05_example_program) = Val (VList [VList [VInt 1; VInt 20; VInt 31; VInt 4]; VInt 1; VInt 7])) by reflexivity.
   unfold run in H. rewrite H. discriminate.
 Qed.
+
+(* a refusing pattern: the outer catch sees the original 5, not an error about the pattern;
+   output printed by the body stays, the inner handler prints nothing *)
+Example C05_example_selective_catch :
+  (let r := run 20 (ETry (ETryP (ESeq [EPrim PPrint [EInt 1]; EThrow (EInt 5)] false) (CInt 0) (EPrim PPrint [EInt 2]))
+                         "e" (EList [(false, EVar "e")])) in (snd r, out (fst r)))
+  = (Val (VList [VInt 5]), [[VInt 1]]).
+Proof. reflexivity. Qed.
